@@ -294,7 +294,11 @@ class PlaceInterp(RecInterp):
     def type_of(self, v):
         v = deref(v)
         if isinstance(v, tuple) and len(v) == 3 and v[0] == 'struct':
-            return strip_generics(v[1]).split('::<')[0]
+            p = strip_generics(v[1]).split('::<')[0]
+            adts = getattr(self.ev.facts, 'adts', {})
+            if p not in adts and p.rsplit('::', 1)[0] in adts:
+                return p.rsplit('::', 1)[0]          # a struct-like enum variant: its type is the enum
+            return p
         if isinstance(v, tuple) and len(v) >= 2 and v[0] == 'ctor':
             p = strip_generics(v[1]).split('::<')[0]
             if p in self.ev.facts.adts:
